@@ -90,7 +90,8 @@ fn main() {
     let mut by_why: BTreeMap<String, usize> = BTreeMap::new();
     let mut distinct_uris = std::collections::HashSet::new();
     let mut samples: Vec<Value> = vec![];
-    for case in &cases {
+    let mut last_reported_case = usize::MAX;
+    for (case_no, case) in cases.iter().enumerate() {
         let v = case["v"].as_str().unwrap();
         for net in &nets {
             let c = concretise(&case["u"], net, &tab);
@@ -134,7 +135,9 @@ fn main() {
             }
             if let Some(why) = problem {
                 n_mismatch += 1;
-                if mismatches.len() < 20 {
+                // one report per case (the networks usually agree), at most 20
+                if mismatches.len() < 20 && last_reported_case != case_no {
+                    last_reported_case = case_no;
                     mismatches.push(json!({"case": case, "net": net, "uri": c.uri, "problem": why,
                                             "observed": {"res": res, "pays": pays, "back": back}}));
                 }
